@@ -18,7 +18,7 @@ func init() {
 	register(&Rule{ID: "VD8", Min: 2, Run: ruleVD8,
 		Doc: "epic-ref-validated: every event that stores a caller-supplied epic reference (NewTaskEvent.EpicID of a task, EpicAssignEvent.EpicID) is dominated by a lookup of that value in graph.Tasks of this callback's graph and by a test that the looked-up item is an epic (IsEpic / isEpic), with the ==\"\" bypass; when the emission sits in a helper the guard is looked for in every lock callback on the call chain, or the update map reaching that callback provably lacks the \"epic\" key; for epics the stored EpicID is the constant \"\""})
 	register(&Rule{ID: "VD9", Min: 8, Run: ruleVD9,
-		Doc: "result-attach-guarded: the \"result\" emission is dominated by !isEpic(task), validateResultSummary==nil and validateResultPath==nil; the stored Path is the cleaned path returned by validateResultPath and the same value is hashed by captureResultEvidence, whose fields fill the evidence; the task is the one loaded or minted in the callback; validateResultPath accepts only after: not absolute, no leading/embedded .., not .ergo, Stat ok, not a directory, Mode().IsRegular()"})
+		Doc: "result-attach-guarded: the \"result\" emission is dominated by !isEpic(task), validateResultSummary==nil and validateResultPath==nil; the stored Path is the cleaned path returned by validateResultPath and the same value is hashed by captureResultEvidence, whose fields fill the evidence; the task is the one loaded or minted in the callback; validateResultPath accepts only after: not absolute, no leading/embedded .., not .ergo, Stat ok, not a directory, Mode().IsRegular(); and an accepted attachment is recorded: no success return of the caller is reachable from its call of the result builder without the builder having succeeded (recorded-or-failed: an error of the builder taken for `nothing to write` accepts, reports and drops the attachment)"})
 	register(&Rule{ID: "VD10", Min: 3, Run: ruleVD10,
 		Doc: "id-freshness: the id generator returns an id only when it is absent from both collision sets; every call passes the ids of the graph loaded in this callback (or a working set seeded from them and extended after each mint) and that graph's Tombstones"})
 	register(&Rule{ID: "VD11", Min: 2, Run: ruleVD11,
@@ -623,6 +623,37 @@ func ruleVD9(c *Ctx) {
 		pos := c.Pos(em.Call.Pos())
 		blk := em.Call.Block()
 		c.check(mustPassEdges(f, blk, guardBool(f, isEpic, false, nil)), fn, construct+"|not-epic", pos, "dominated by !isEpic(task)", "a result can be attached to an epic")
+		// an accepted attachment is recorded: whoever asks the builder for the event either gets it (and goes on with it)
+		// or fails - a caller that turns one of the builder's errors into "nothing to write" reports success for an
+		// attachment that is not in the log
+		if f.Signature.Results().Len() >= 1 && f.Signature.Results().At(f.Signature.Results().Len()-1).Type().String() == "error" {
+			for i, cs := range c.callers[f] {
+				cv, isCall := cs.Call.(*ssa.Call)
+				if !isCall {
+					continue
+				}
+				g := cs.Fn
+				removed := nilErrEdges(g, cv)
+				swallowed := ""
+				for b := range reach(cv.Block(), removed, nil) {
+					if len(b.Instrs) == 0 || (b == cv.Block() && len(removed) > 0 && false) {
+						continue
+					}
+					if r, ok := b.Instrs[len(b.Instrs)-1].(*ssa.Return); ok && b.Comment != "recover" && !c.definitelyFails(g, r) {
+						if b == cv.Block() {
+							continue
+						}
+						swallowed = c.Pos(r.Pos())
+					}
+				}
+				if len(removed) == 0 {
+					continue // the error is handed on as it is (return build(...))
+				}
+				c.check(swallowed == "", c.Name(g), fmt.Sprintf("%s|recorded-or-failed#%d", construct, i+1), c.Pos(cv.Pos()),
+					"the caller goes on to success only with the event the builder handed back",
+					"a success return ("+swallowed+") is reachable from this call without the builder having succeeded: one of its errors is taken for `nothing to write`, so the command accepts the attachment, reports it and records nothing")
+			}
+		}
 		c.check(mustPassEdges(f, blk, guardNil(f, vrs, nil)), fn, construct+"|summary", pos, "dominated by validateResultSummary==nil", "result summary is not validated")
 		gPath := guardNil(f, vrp, nil)
 		c.check(mustPassEdges(f, blk, gPath), fn, construct+"|path", pos, "dominated by validateResultPath==nil", "result path is not validated: a path outside the project, inside .ergo, a directory or a FIFO can be recorded")
@@ -1671,7 +1702,8 @@ func ruleVD12(c *Ctx) {
 					continue
 				}
 				cal := calleeOf(&cv.Call)
-				if cal != nil && strings.HasPrefix(cal.Name(), "Validate") && len(cv.Call.Args) > 0 && input != nil && resolve(cv.Call.Args[0]) == input {
+				// (ValidateForSet, or the implementation behind it once it gained a parameter: input.validate(..., limit))
+				if cal != nil && strings.HasPrefix(strings.ToLower(cal.Name()), "validate") && len(cv.Call.Args) > 0 && input != nil && resolve(cv.Call.Args[0]) == input {
 					val = cv
 				}
 			}
